@@ -52,6 +52,8 @@ DRV(s3, Vec3s, short)
 DRV(d2, Vec2d, double)
 DRV(d4, Vec4d, double)
 DRV(f3, Vec3f, float)
+DRV(f2, Vec2f, float)
+DRV(f4, Vec4f, float)
 
 Vec3i i3_cross(const Vec3i &a, const Vec3i &b) { return a % b; }
 Vec3i i3_cross_free(const Vec3i &a, const Vec3i &b) { return cross(a, b); }
